@@ -73,7 +73,7 @@ func (p *partsFile) Read(b []byte) (int, error) {
 	if rem := p.size() - p.pos; int64(k) > rem {
 		k = int(rem)
 	}
-	if p.served+int64(k) > 4<<20 {
+	if p.served+int64(k) > 64<<20 {
 		return 0, fmt.Errorf("virtual file: the media data is being read through")
 	}
 	for i := 0; i < k; i++ {
